@@ -193,8 +193,14 @@ def run_lines(cmd, lines, cwd=None, timeout=3600, restart_on_death=True):
     deaths = 0
     while i < len(lines):
         chunk = lines[i:]
-        p = subprocess.run(cmd, input="\n".join(chunk) + "\n", capture_output=True, text=True, cwd=cwd,
-                           timeout=timeout, env=ENV, preexec_fn=(None if cmd[0] == DRV else _limit_memory))
+        try:
+            p = subprocess.run(cmd, input="\n".join(chunk) + "\n", capture_output=True, text=True, cwd=cwd,
+                               timeout=timeout, env=ENV, preexec_fn=(None if cmd[0] == DRV else _limit_memory))
+        except subprocess.TimeoutExpired:
+            # the process as a whole did not finish (a model driver built from a grammar that is no longer a DAG can take
+            # exponential time): every unanswered request is answered as such and shows as a broken tie
+            replies.extend(["abort no-answer (process time limit)"] * (len(lines) - len(replies)))
+            break
         got = p.stdout.split("\n")
         if got and got[-1] == "":
             got.pop()
@@ -215,7 +221,7 @@ def run_lines(cmd, lines, cwd=None, timeout=3600, restart_on_death=True):
     return replies
 
 
-def run_driver(lines, timeout=3600):
+def run_driver(lines, timeout=900):
     return run_lines([DRV], lines, timeout=timeout, restart_on_death=False)
 
 
